@@ -164,8 +164,39 @@ func c18Run(out *vh.Out, op string) {
 	if vdsn.RecogniseHeader(p.OrigHdr, g.hdr) == "?" {
 		out.Violation("C18/original-header-not-carried", op, fmt.Sprintf("third part: %q", p.OrigHdr))
 	}
+	// one per-recipient group per record handed in, each with the record's own status: records
+	// naming the same address (two members of one alias) or two spellings of one mailbox are still
+	// separate recipients with their own outcome
 	if len(p.Rcpts) != len(g.rcpts) {
 		out.Violation("C18/recipient-groups", op, fmt.Sprintf("%d groups for %d recipients", len(p.Rcpts), len(g.rcpts)))
+	} else {
+		used := make([]bool, len(p.Rcpts))
+		for _, rc := range g.rcpts {
+			want := fmt.Sprintf("%d.%d.%d", rc.st[0], rc.st[1], rc.st[2])
+			found := false
+			for gi, grp := range p.Rcpts {
+				if used[gi] || len(grp["Final-Recipient"]) == 0 || len(grp["Status"]) == 0 {
+					continue
+				}
+				_, a := vdsn.SplitTyped(grp["Final-Recipient"][0])
+				if vdsn.SameMailbox(a, rc.final) && strings.TrimSpace(grp["Status"][0]) == want {
+					used[gi], found = true, true
+					break
+				}
+			}
+			if !found {
+				out.Violation("C18/recipient-groups", op, fmt.Sprintf("no group for the record %q with status %s", rc.final, want))
+				break
+			}
+		}
+	}
+	seen := map[string]bool{}
+	for _, rc := range g.rcpts {
+		if seen[strings.ToLower(rc.final)] {
+			out.Stat("gen.same-address-or-case-variant")
+			break
+		}
+		seen[strings.ToLower(rc.final)] = true
 	}
 }
 
@@ -206,6 +237,15 @@ func c18GenCase(r *vh.Rng) *c18Gen {
 			f = r.Intn(vdsn.NumForms)
 		}
 		rc := c18Rcpt{final: vdsn.Addr(f, i+1), action: r.Pick("failed", "failed", "failed", "delayed", "delivered", "relayed", "expanded")}
+		if i > 0 && r.Chance(14) {
+			// another member of the alias an earlier record stands for, or the same mailbox as the
+			// sender spelled it a second time
+			prev := g.rcpts[r.Intn(i)].final
+			rc.final = prev
+			if r.Chance(50) && strings.HasPrefix(prev, "u") {
+				rc.final = strings.ToUpper(prev) // u1@example.org / U1@EXAMPLE.ORG
+			}
+		}
 		if r.Chance(3) {
 			rc.final = ""
 		}
